@@ -121,7 +121,7 @@ func (g *Gen) Prelude() [][]string {
 	var out [][]string
 	g.Other = nil
 	for _, t := range []string{"string", "list", "hash", "set", "zset", "stream"} {
-		if t == g.Family || (g.Family == "keys" && t == "string") {
+		if t == g.Family || (g.Family == "keys" && t == "string") || g.Family == "zsetdeep" || g.Family == "lifecycle" {
 			continue
 		}
 		out = append(out, all[t])
@@ -148,6 +148,10 @@ func (g *Gen) Next() []string {
 		a = g.nextZset()
 	case "stream":
 		a = g.nextStream()
+	case "zsetdeep":
+		a = g.nextZsetDeep()
+	case "lifecycle":
+		a = g.nextLifecycle()
 	default:
 		panic("family " + g.Family)
 	}
@@ -447,5 +451,76 @@ func (g *Gen) nextStream() []string {
 		return []string{"xrange", k, "-", "+"}
 	default:
 		return g.pick2([][]string{{"exists", k}, {"type", k}, {"del", k}})
+	}
+}
+
+
+// zsetdeep: one sorted set with up to 24 members of mostly distinct scores: deep AVL trees, rotations after
+// deletions, score moves (delete + insert); the structural invariants are evaluated after every command.
+func (g *Gen) nextZsetDeep() []string {
+	m := "m" + strconv.Itoa(g.R.Intn(24))
+	switch g.R.Intn(12) {
+	case 0, 1, 2, 3, 4:
+		return []string{"zadd", "zd", strconv.Itoa(g.R.Intn(60)), m}
+	case 5:
+		return []string{"zadd", "zd", strconv.Itoa(g.R.Intn(60)) + ".5", m, strconv.Itoa(g.R.Intn(60)), "m" + strconv.Itoa(g.R.Intn(24))}
+	case 6, 7, 8:
+		return []string{"zrem", "zd", m}
+	case 9:
+		return []string{"zrank", "zd", m}
+	case 10:
+		return []string{"zrange", "zd", g.pick([]string{"0", "1", "5", "-3"}), g.pick([]string{"-1", "3", "10", "-2"}), g.pick([]string{"withscores", "rev"})}
+	default:
+		return []string{"zrange", "zd", "0", "-1", "withscores"}
+	}
+}
+
+// lifecycle: aggregates that are created, given a long deadline, drained by every emptying command, re-created and
+// inspected: an emptied key ceases to exist together with its deadline (C06/C09-C12).
+func (g *Gen) nextLifecycle() []string {
+	k := g.pick([]string{"q1", "q2"})
+	switch g.R.Intn(26) {
+	case 0, 1:
+		return []string{"rpush", k, g.pick([]string{"a", "b"})}
+	case 2:
+		return []string{"sadd", k, g.pick([]string{"a", "b"})}
+	case 3:
+		return []string{"hset", k, g.pick([]string{"a", "b"}), "v"}
+	case 4:
+		return []string{"zadd", k, "1", g.pick([]string{"a", "b"})}
+	case 5, 6, 7:
+		return []string{"expire", k, g.pick([]string{"1000", "2000"})}
+	case 8:
+		return []string{"lpop", k}
+	case 9:
+		return []string{"rpop", k}
+	case 10:
+		return []string{"lrem", k, "0", g.pick([]string{"a", "b"})}
+	case 11:
+		return []string{"ltrim", k, "1", "0"}
+	case 12:
+		return []string{"lmove", k, g.pick([]string{"q1", "q2"}), "left", "right"}
+	case 13:
+		return []string{"srem", k, g.pick([]string{"a", "b"})}
+	case 14:
+		return []string{"spop", k}
+	case 15:
+		return []string{"smove", k, g.pick([]string{"q1", "q2"}), g.pick([]string{"a", "b"})}
+	case 16:
+		return []string{"hdel", k, g.pick([]string{"a", "b"})}
+	case 17:
+		return []string{"zrem", k, g.pick([]string{"a", "b"})}
+	case 18:
+		return []string{"sdiffstore", k, k, k}
+	case 19, 20, 21:
+		return []string{"ttl", k}
+	case 22:
+		return []string{"persist", k}
+	case 23:
+		return []string{"set", k, "v"}
+	case 24:
+		return []string{"del", k}
+	default:
+		return []string{"exists", k}
 	}
 }
